@@ -166,8 +166,20 @@ Qed.
    keeping the nodes selected by p (others removed), and replacing the initializer table. *)
 Definition rw_graph (tr : node -> node) (sg : vid -> vid) (p : node -> bool) (inits : graph -> list (vid * tensor)) (g : graph) : graph :=
   mkGraph (g_ins g) (inits g) (map (fun n => tr (subst_ins sg n)) (filter p (g_nodes g))) (map sg (g_outs g)).
-Definition rw (tr : node -> node) (sg : vid -> vid) (p : node -> bool) (inits : graph -> list (vid * tensor)) (m : model) : model :=
-  map_graphs (rw_graph tr sg p inits) m.
+Definition mk2 (F1 F2 : graph -> graph) (m : model) : model :=
+  mkModel (F1 (m_main m)) (map (fun q => (fst q, F2 (snd q))) (m_subs m))
+          (map (fun f => mkFunc (f_id f) (F2 (f_body f)) (f_defaults f)) (m_funcs m)).
+(* `inits true` rewrites the initializer table of the main graph, `inits false` those of the others *)
+Definition rw (tr : node -> node) (sg : vid -> vid) (p : node -> bool) (inits : bool -> graph -> list (vid * tensor)) (m : model) : model :=
+  mk2 (rw_graph tr sg p (inits true)) (rw_graph tr sg p (inits false)) m.
+Lemma rw_map_graphs tr sg p i m : rw tr sg p (fun _ => i) m = map_graphs (rw_graph tr sg p i) m.
+Proof. reflexivity. Qed.
+Lemma flat_map_mk2 {X} (proj : graph -> list X) (q : graph -> list X) F1 F2 m :
+  (forall g, proj (F1 g) = q g) -> (forall g, proj (F2 g) = q g) -> flat_map proj (graphs_of (mk2 F1 F2 m)) = flat_map q (graphs_of m).
+Proof.
+  intros H1 H2. unfold graphs_of, mk2. simpl. rewrite H1. f_equal.
+  rewrite !flat_map_app. rewrite !map_map. f_equal; rewrite !flat_map_map; apply flat_map_ext'; intros; simpl; apply H2.
+Qed.
 Definition tr_ok (tr : node -> node) : Prop :=
   forall n, n_op (tr n) = n_op n /\ n_attrs (tr n) = n_attrs n /\ n_outs (tr n) = n_outs n
             /\ exists c k k', n_ins n = c ++ repeat None k /\ n_ins (tr n) = c ++ repeat None k'.
@@ -176,12 +188,13 @@ Proof. intros n. repeat split. exists (n_ins n), O, O. simpl. rewrite app_nil_r.
 
 Lemma all_nodes_rw tr sg p inits m : all_nodes (rw tr sg p inits m) = map (fun n => tr (subst_ins sg n)) (filter p (all_nodes m)).
 Proof.
-  unfold all_nodes, rw. rewrite graphs_of_map_graphs, flat_map_map, filter_flat_map, map_flat_map. reflexivity.
+  unfold all_nodes, rw. rewrite (flat_map_mk2 g_nodes (fun g => map (fun n => tr (subst_ins sg n)) (filter p (g_nodes g)))); try reflexivity.
+  rewrite filter_flat_map, map_flat_map. reflexivity.
 Qed.
 Lemma all_formals_rw tr sg p inits m : all_formals (rw tr sg p inits m) = all_formals m.
-Proof. unfold all_formals, rw. rewrite graphs_of_map_graphs, flat_map_map. reflexivity. Qed.
-Lemma all_inits_rw tr sg p inits m : all_inits (rw tr sg p inits m) = flat_map inits (graphs_of m).
-Proof. unfold all_inits, rw. rewrite graphs_of_map_graphs, flat_map_map. reflexivity. Qed.
+Proof. unfold all_formals, rw. apply flat_map_mk2; reflexivity. Qed.
+Lemma all_inits_rw_same tr sg p m : all_inits (rw tr sg p (fun _ => g_inits) m) = all_inits m.
+Proof. unfold all_inits, rw. apply flat_map_mk2; reflexivity. Qed.
 Lemma all_outs_rw_incl tr sg p inits m v : tr_ok tr -> In v (all_outs (rw tr sg p inits m)) -> In v (all_outs m).
 Proof.
   intros Htr. unfold all_outs. rewrite all_nodes_rw, flat_map_map. rewrite !in_flat_map.
@@ -201,15 +214,14 @@ Proof.
 Qed.
 
 Lemma WF_rw tr sg p inits m : tr_ok tr ->
-  WF m -> (forall v, In v (flat_map (fun g => map fst (inits g)) (graphs_of m)) -> ~ In v (all_outs m)) -> WF (rw tr sg p inits m).
+  WF m -> (forall v, In v (map fst (all_inits (rw tr sg p inits m))) -> ~ In v (all_outs m)) -> WF (rw tr sg p inits m).
 Proof.
   intros Htr [H1 H2 H3] Hi. constructor.
   - unfold all_outs. rewrite all_nodes_rw, flat_map_map.
     rewrite (flat_map_ext' _ n_outs); [apply NoDup_flat_map_filter; exact H1|].
     intros n _. destruct (Htr (subst_ins sg n)) as [_ [_ [Ho _]]]. exact Ho.
   - intros v Hv Ho. rewrite all_formals_rw in Hv. apply all_outs_rw_incl in Ho; [|exact Htr]. exact (H2 v Hv Ho).
-  - intros v Hv Ho. apply all_outs_rw_incl in Ho; [|exact Htr]. apply (Hi v); [|exact Ho].
-    rewrite all_inits_rw, map_flat_map in Hv. exact Hv.
+  - intros v Hv Ho. apply all_outs_rw_incl in Ho; [|exact Htr]. apply (Hi v); assumption.
 Qed.
 
 Section Step.
@@ -224,7 +236,7 @@ Section Step.
   Hypothesis interp_trailing_absent : forall op attrs subs ins k,
       interp op attrs subs (ins ++ [absent]) k = interp op attrs subs ins k.
 
-  Variables (tr : node -> node) (sg : vid -> vid) (p : node -> bool) (inits : graph -> list (vid * tensor)) (m : model).
+  Variables (tr : node -> node) (sg : vid -> vid) (p : node -> bool) (inits : bool -> graph -> list (vid * tensor)) (m : model).
   Variable L : vid -> Prop.
   Hypothesis HWF : WF m.
   Hypothesis Htr : tr_ok tr.
@@ -299,13 +311,13 @@ Section Step.
         * eapply VIdent with (n := n) (x := x); simpl; eauto.
           apply Hclosed. rewrite Hins. left. reflexivity.
         * eapply VConst with (n := n) (t := t); simpl; eauto.
-    - intros g gr Eg. unfold s, s' in *. simpl in *. unfold m', rw, map_graphs. simpl.
+    - intros g gr Eg. unfold s, s' in *. simpl in *. unfold m', rw, mk2. simpl.
       rewrite alookup_map_snd, Eg. simpl. eexists. split; [reflexivity|]. simpl. auto.
     - intros g gr Eg. unfold s in Eg. simpl in Eg. split; [eapply formal_sub; eauto|].
       apply H_outs_L. apply alookup_In in Eg. unfold graphs_of. right. apply in_app_iff. left. apply in_map_iff. exists (g, gr). auto.
-    - intros op fn Ef. unfold s, s' in *. simpl in *. unfold m', rw, map_graphs. simpl.
+    - intros op fn Ef. unfold s, s' in *. simpl in *. unfold m', rw, mk2. simpl.
       rewrite find_func_map, Ef. simpl. eexists. split; [reflexivity|]. simpl. auto.
-    - intros op Ef. unfold s, s' in *. simpl in *. unfold m', rw, map_graphs. simpl. rewrite find_func_map, Ef. reflexivity.
+    - intros op Ef. unfold s, s' in *. simpl in *. unfold m', rw, mk2. simpl. rewrite find_func_map, Ef. reflexivity.
     - intros op fn Ef. unfold s in Ef. simpl in Ef. split; [eapply formal_func; eauto|].
       apply H_outs_L. apply find_func_In in Ef. unfold graphs_of. right. apply in_app_iff. right. apply in_map_iff. exists fn. auto.
   Qed.
@@ -314,7 +326,7 @@ Section Step.
   Theorem step_computes env r :
     env_ok T (formal_of m) env -> computes absent tensor_val interp m env r -> computes absent tensor_val interp m' env r.
   Proof.
-    intros He [f E]. exists f. unfold den_list in *. unfold m' at 2. unfold rw, map_graphs. simpl. rewrite map_opt_map.
+    intros He [f E]. exists f. unfold den_list in *. unfold m' at 2. unfold rw, mk2. simpl. rewrite map_opt_map.
     eapply map_opt_impl; [|exact E]. intros x y Hx Hy.
     eapply (sim_refines T absent tensor_val interp interp_mono interp_identity interp_trailing_absent L (formal_of m) sg s s' step_sim); eauto.
     assert (HF := H_outs_L (m_main m) (or_introl eq_refl)). rewrite Forall_forall in HF. auto.
